@@ -645,7 +645,11 @@ class HistIO(Hist):
         trailing = False
         for kind, x in decl:
             if rng.random() < 0.15:
-                lines.append(rng.choice(('', '# a comment', '#', '# INPUT(fake)', '   ', '\t', '  # an indented comment')))
+                lines.append(rng.choice(('', '# a comment', '#', '# INPUT(fake)', '   ', '\t', '  # an indented comment',
+                                         # a comment may hold any character except the line feed, also those that
+                                         # str.splitlines() (but not a text file) takes for line boundaries
+                                         '# page\x0cOUTPUT(fake)', '# sep\x1cx = AND(a, b)', '# nel\x85 INPUT(fake)',
+                                         '# ls\u2028OUTPUT(fake)', '# vt\x0bnote', '# ps\u2029y = NOT(fake)')))
             n_before = len(lines)
             if kind == 'in':
                 lines.append(f'INPUT({x})')
